@@ -14,6 +14,21 @@ import vlib
 from checks import c23 as kvlib
 
 
+def spec_reuse_edges(path):
+    """Transitions of Flushable.tla whose pre-state has bprev (the batch object was written and Reset, nothing flushed
+    since), by operation.  The raw state is the VIEW tuple, bprev its last component."""
+    n = {}
+    with open(path) as f:
+        for line in f:
+            if not line.startswith('{"pre"'):
+                continue
+            e = json.loads(line)
+            if e["pre"][-1] is True:
+                op = e["act"]["op"]
+                n[op] = n.get(op, 0) + 1
+    return n
+
+
 def run(c):
     built = kvlib.prebuild(c)
     ex = c.path("fl_ex.ndjson")
@@ -38,6 +53,17 @@ def run(c):
         out["edges"], len(adapters), {k: round(v, 1) for k, v in out["wall_s"].items()}))
     kvlib.guard_ops(c, out, ("put", "del", "bput", "bdel", "bwrite", "breset", "breplay", "flush", "drop", "snap",
                              "release", "clear", "goto"))
+    # ---- batch-object reuse: Put.. Write Reset Put.. on ONE batch object while what it wrote is still unflushed
+    sre = spec_reuse_edges(edges)
+    c.guard("spec_reuse_bput_bdel_edges", sre.get("bput", 0) + sre.get("bdel", 0))
+    c.guard("spec_reuse_bwrite_edges", sre.get("bwrite", 0))
+    c.guard("spec_reuse_flush_edges", sre.get("flush", 0))
+    c.guard("spec_reuse_snap_edges", sre.get("snap", 0))
+    st = kvlib.sum_stats(out)
+    for g in ("batch_reuse_ops", "batch_reuse_ops_unflushed", "batch_reuse_writes", "reads_after_reuse_unflushed",
+              "pre_states_via_spec_batch"):
+        c.guard(g, st.get(g, 0))
+    c.log("batch-object reuse: spec edges from bprev states %s; real batch objects %s" % (sre, st))
     reports = kvlib.summarize(out)
     # ---- iterators held open while the store changes (pattern T)
     tr = c.path("iter_trace.ndjson")
@@ -62,6 +88,8 @@ def run(c):
         held_open_iterator_scenarios=tv["scenarios"], held_open_trace_lines_validated=tv["validated_lines"],
         held_open_stats=ist,
         edges_replayed_on_impl=sum(r["applied"] for r in reports.values()),
+        batch_object_reuse=dict(spec_edges_from_reused_batch_states=sre,
+                                real={k: v for k, v in st.items() if k.startswith(("batch_", "reads_after", "pre_states"))}),
         stacks=adapters,
         exhaustive=True,
         rule="complete graph of Flushable.tla for cfg %s (depth-bounded from designed (underlying, overlay, batch, snapshot) "
@@ -71,7 +99,9 @@ def run(c):
                  jobs[0]["cfg"], len(conf["probe"]), len(conf["iters"])),
         replay=reports, samples=kvlib.first_sample(out),
     ), assumptions=[
-        "pre-states are built by writing the underlying store directly and the overlay through Put/Delete",
+        "pre-states are built by writing the underlying store directly and the overlay through Put/Delete, or through the "
+        "store's one long-lived batch object (queue, Write, Reset): always when the specification state says the batch "
+        "object has been written and reset (bprev), and on every second instance otherwise",
         "iterators held open across writes are only required to yield ascending in-range keys with pairs that were in the "
         "view at some moment between creation and yield (the property does not say which concurrent writes they see)",
         "after Batch.Write the model only resets the batch",
